@@ -1391,7 +1391,11 @@ func sameCellValue(a, b ssa.Value) bool {
 				return false
 			}
 			if x.Addr == base {
-				return false
+				// the whole record is replaced by the result of a helper that was handed the record and returns it with
+				// this field untouched (`run = k.add(ctx, run, ...)` where add only changes run.states)
+				if !returnsParamFieldUnchanged(x.Val, base, fa.Field) {
+					return false
+				}
 			}
 		case ssa.CallInstruction:
 			for i, arg := range x.Common().Args {
@@ -1416,6 +1420,85 @@ func sameCellValue(a, b ssa.Value) bool {
 				}
 			}
 		}
+	}
+	return false
+}
+
+// returnsParamFieldUnchanged: v is (result #i of) a call of a module helper one of whose arguments is the current value
+// of the record at base, and on every return the helper yields, at #i, that parameter's record with field #field never
+// assigned inside the helper.
+func returnsParamFieldUnchanged(v ssa.Value, base ssa.Value, field int) bool {
+	idx := 0
+	var c *ssa.Call
+	switch y := v.(type) {
+	case *ssa.Call:
+		c = y
+	case *ssa.Extract:
+		c, _ = y.Tuple.(*ssa.Call)
+		idx = y.Index
+	}
+	if c == nil || c.Common().IsInvoke() {
+		return false
+	}
+	h := c.Common().StaticCallee()
+	if h == nil || h.Blocks == nil {
+		return false
+	}
+	for j, a := range c.Common().Args {
+		u, ok := a.(*ssa.UnOp)
+		if !ok || u.Op != token.MUL || u.X != base || j >= len(h.Params) {
+			continue
+		}
+		prm := h.Params[j]
+		// the parameter's spill slot
+		var slot *ssa.Alloc
+		if prm.Referrers() != nil {
+			for _, ref := range *prm.Referrers() {
+				if st, ok := ref.(*ssa.Store); ok && st.Val == ssa.Value(prm) {
+					slot, _ = st.Addr.(*ssa.Alloc)
+				}
+			}
+		}
+		ok2 := true
+		for _, ret := range Returns(h) {
+			rv := retVals(ret)
+			if idx >= len(rv) {
+				return false
+			}
+			r := rv[idx]
+			if r == ssa.Value(prm) {
+				continue
+			}
+			lu, isLoad := r.(*ssa.UnOp)
+			if !isLoad || lu.Op != token.MUL || slot == nil || lu.X != ssa.Value(slot) {
+				ok2 = false
+			}
+		}
+		if !ok2 {
+			return false
+		}
+		if slot != nil && slot.Referrers() != nil {
+			for _, ref := range *slot.Referrers() {
+				switch r := ref.(type) {
+				case *ssa.FieldAddr:
+					if r.Field == field && r.Referrers() != nil {
+						for _, r2 := range *r.Referrers() {
+							if st, ok := r2.(*ssa.Store); ok && st.Addr == ssa.Value(r) {
+								return false
+							}
+						}
+					}
+				case *ssa.Store:
+					if r.Addr == ssa.Value(slot) && r.Val != ssa.Value(prm) {
+						return false
+					}
+				case *ssa.UnOp, *ssa.DebugRef:
+				default:
+					return false // the slot's address is used otherwise
+				}
+			}
+		}
+		return true
 	}
 	return false
 }
